@@ -16,6 +16,7 @@ import (
 	"math/rand"
 	"os"
 	"strings"
+	"sync"
 	"sync/atomic"
 
 	_ "golang.org/x/image/webp"
@@ -169,7 +170,28 @@ type loadObs struct {
 	NilStream bool
 }
 
+var contractMu sync.Mutex
+var contractBreaks []map[string]interface{}
+
+func noteContractBreak(which string, data []byte) {
+	contractMu.Lock()
+	defer contractMu.Unlock()
+	if len(contractBreaks) < 8 {
+		contractBreaks = append(contractBreaks, map[string]interface{}{"loader": which, "bytes": len(data), "data": shortHex(data)})
+	}
+}
+
+var accessorOrder uint32
+
 func iccString(md *meta.Data) string {
+	// callers ask for the parsed profile and for the raw bytes in either order: every other time the parsed
+	// profile is requested first (whether it parses or not, the raw bytes stay what was embedded)
+	if atomic.AddUint32(&accessorOrder, 1)%2 == 0 {
+		func() {
+			defer func() { recover() }()
+			md.ICCProfile()
+		}()
+	}
 	d, err := md.ICCProfileData()
 	if err != nil {
 		return "iccerr"
@@ -258,9 +280,13 @@ func observeLoad(which string, data []byte, s sched) (o loadObs) {
 	}
 	if err != nil || md == nil {
 		o.Status = "err"
+		if err == nil {
+			noteContractBreak(which, data)
+		}
 	} else {
 		o.Status = "ok"
 		o.MD = mdString(md)
+		scribbleOnProfile(md)
 	}
 	if stream == nil {
 		o.NilStream = true
@@ -268,6 +294,23 @@ func observeLoad(which string, data []byte, s sched) (o loadObs) {
 	}
 	o.Replay, o.End = drainStream(stream)
 	return o
+}
+
+// what the caller does with the returned profile bytes is its own business: it may edit them in place or
+// append to them before it reads the image stream, which must still replay the input
+var scribbleCounter uint32
+
+func scribbleOnProfile(md *meta.Data) {
+	if atomic.AddUint32(&scribbleCounter, 1)%3 != 0 {
+		return
+	}
+	defer func() { recover() }()
+	d, _ := md.ICCProfileData()
+	for i := range d {
+		d[i] ^= 0x5a
+	}
+	d = append(d, 0xde, 0xad, 0xbe, 0xef, 0xde, 0xad, 0xbe, 0xef)
+	_ = d
 }
 
 func (o loadObs) outcome() string {
